@@ -79,6 +79,9 @@ pub struct VT {
 	pub decode_dyn: fn(&mut dyn Input) -> Result<Value, String>,
 	pub decode_reencode: fn(&[u8]) -> Result<(Vec<u8>, usize), String>,
 	pub skip: fn(&[u8]) -> Result<usize, String>,
+	/// skip through any input / through `IoReader` over any reader: succeeded?
+	pub skip_dyn: fn(&mut dyn Input) -> bool,
+	pub skip_io: fn(&mut dyn io::Read) -> bool,
 	pub decode_all: fn(&[u8]) -> Result<Value, String>,
 	pub decode_depth: fn(u32, &[u8]) -> DecRes,
 	pub decode_all_depth: fn(u32, &[u8]) -> Result<Value, String>,
@@ -203,6 +206,13 @@ fn skip<T: Subject + Decode>(data: &[u8]) -> Result<usize, String> {
 		Ok(()) => Ok(data.len() - s.len()),
 		Err(e) => Err(e.to_string()),
 	}
+}
+
+fn skip_dyn<T: Decode>(input: &mut dyn Input) -> bool {
+	T::skip(&mut DynIn(input)).is_ok()
+}
+fn skip_io<T: Decode>(r: &mut dyn io::Read) -> bool {
+	T::skip(&mut parity_scale_codec::IoReader(ReadRef(r))).is_ok()
 }
 
 fn dec_all<T: Subject + Decode>(data: &[u8]) -> Result<Value, String> {
@@ -345,6 +355,8 @@ impl VT {
 			decode_dyn: dec_dyn::<T>,
 			decode_reencode: dec_reenc::<T>,
 			skip: skip::<T>,
+			skip_dyn: skip_dyn::<T>,
+			skip_io: skip_io::<T>,
 			decode_all: dec_all::<T>,
 			decode_depth: dec_depth::<T>,
 			decode_all_depth: dec_all_depth::<T>,
